@@ -93,7 +93,21 @@ def rnd_abscissae(rng, sc, R=None):
         xs.append(cp + 10 ** rng.uniform(-10, -5.5))
     if R is not None:
         xs += [cp - R, cp - 0.5 * R, cp - 0.9 * R]
-    return np.array(xs, dtype=float)
+    xs = np.array(xs, dtype=float)
+    # the value at a point does not depend on where it stands in the array:
+    # approach order, retract order, a whole cycle, no order at all
+    order = rng.choice(["as-built", "ascending", "descending", "shuffled",
+                        "cycle"])
+    if order == "ascending":
+        xs = np.sort(xs)
+    elif order == "descending":
+        xs = np.sort(xs)[::-1].copy()
+    elif order == "shuffled":
+        xs = xs[np.array(rng.sample(range(xs.size), xs.size))]
+    elif order == "cycle":
+        srt = np.sort(xs)
+        xs = np.concatenate([srt[::-1], srt[1:]])
+    return xs
 
 
 def interval_goals(run, models, rng, n_per_model):
